@@ -111,6 +111,9 @@ type Peer struct {
 	// TimeOffset is added to the timestamp in the version message.
 	TimeOffset time.Duration
 	// StartHeightOverride, if non-zero, is advertised instead of the tip.
+	// BlinkAfter > 0: the peer closes every connection within that time
+	// after the handshake completed.
+	BlinkAfter time.Duration
 	StartHeightOverride int32
 	// PreVersion, when set, is called on every connection after the client's
 	// version message was read and before this peer sends its own version
@@ -330,6 +333,14 @@ func (p *Peer) Serve(conn *Conn) {
 	close(ready)
 	if p.Log != nil {
 		p.Log.Add(p.Addr, "ev", "handshake", "")
+	}
+	if p.BlinkAfter > 0 {
+		// Hang up right after the handshake (up to BlinkAfter later).
+		time.Sleep(time.Duration(p.rng.Int63n(int64(p.BlinkAfter))))
+		if p.Log != nil {
+			p.Log.Add(p.Addr, "ev", "blink", "")
+		}
+		return
 	}
 
 	for {
